@@ -682,7 +682,7 @@ INLINE_TRIVIAL = {
     'SyncObj.__getCurrentLogIndex', 'SyncObj.__getCurrentLogTerm', 'SyncObj.__setState', 'SyncObj._isLeader',
     'SyncObj.__connectedToAnyone', 'SyncObj.__generateRaftTimeout', 'SyncObj.__deleteEntriesFrom',
     'SyncObj.__deleteEntriesTo', 'SyncObj.__sendNextNodeIdx', 'SyncObj.__getPrevLogIndexTerm',
-    'SyncObj.__parseChangeClusterRequest', 'SyncObj.__callErrCallback',
+    'SyncObj.__parseChangeClusterRequest', 'SyncObj.__callErrCallback', 'iteritems',
 }
 
 
